@@ -144,6 +144,14 @@ SCALED_SHAPES = {1: [(3,)], 2: [(2, 3)], 3: [(2, 1, 3)]}
 SCALES = [-30, 40]
 
 
+def grid_bounds(tier="quick"):
+    """Description of the shared grid enumeration for the evidence files."""
+    return {"cells_per_axis": "1..3 in every combination (3-D quick: 6 shapes)", "larger_shapes": {str(k): v for k, v in LARGE_SHAPES.items()},
+            "spacing_templates": ["U", "I"] + (["G"] if tier != "quick" else []) + ["L = (N, L) constructor form", "E = nearly equispaced (1e-6)"],
+            "radial_origin": [0, 0.5], "length_units": ["1"] + ["2^%d" % k for k in SCALES],
+            "big_grids_generic_fields": {str(k): v for k, v in BIG_SHAPES.items()}}
+
+
 BIG_SHAPES = {1: [(40,), (133,)], 2: [(17, 13), (1, 40)], 3: [(7, 6, 5), (1, 12, 1)]}
 
 
